@@ -183,6 +183,10 @@ pub unsafe fn hook_mmap(
         return libc::mmap(addr, len, prot, flags, fd, offset);
     }
     c.seam_events += 1;
+    if c.cfg.yield_sys {
+        crate::sim::yield_point();
+    }
+    let c = cx();
     let k = c.sys.mmap_calls;
     c.sys.mmap_calls += 1;
     if flags & (libc::MAP_FIXED | libc::MAP_FIXED_NOREPLACE) != 0 {
@@ -266,6 +270,10 @@ pub unsafe fn hook_munmap(addr: *mut libc::c_void, len: libc::size_t) -> libc::c
         return libc::munmap(addr, len);
     }
     c.seam_events += 1;
+    if c.cfg.yield_sys {
+        crate::sim::yield_point();
+    }
+    let c = cx();
     c.sys.seq += 1;
     let seq = c.sys.seq;
     let a = addr as usize;
@@ -483,6 +491,9 @@ pub unsafe fn hook_ioctl(fd: i32, req: u64, arg: *mut u8, arg_len: usize) -> Opt
         let c = cx();
         if c.sys.xen.is_some() {
             c.seam_events += 1;
+            if c.cfg.yield_sys {
+                crate::sim::yield_point();
+            }
             let r = crate::xendev::ioctl(fd, req, arg, arg_len);
             if r != 0 {
                 set_errno(libc::EINVAL);
